@@ -13,7 +13,7 @@ import (
 )
 
 func init() {
-	props["C08"] = &propDef{run: runC08, explanation: "Partial: end-to-end acceptance of client-built requests and 'yields the requested document' are behavioural and NOT decided. Decided statically (necessary conditions): (X1) each builder signs / serialises values of exactly the named types the parser decodes into, so member names agree by construction; (X2) the client's signer-header whitelist equals the parser's ({alg,kid}); (P1) in every builder the delta hash is CalculateModelMultihash of the very delta object placed in the request, with the caller's multihash code, and that value is what is signed / put in the suffix data; all four builders return the canonical encoding of the request object; (G1) builders refuse unacceptable inputs — create: document xor patches, valid multihash code, both commitments computed with that code, distinct commitments; update/recover: key present and valid, key-reuse check against the next commitment, signer checks; deactivate: signer checks; (P2) GetAnchoredOperation rebuilds the per-type request from the parsed model field by field and returns its canonical encoding with type, suffix and anchor origin; (P3) the Sidetree client derives the reveal value from the signer's public key with the code of the operation commitment, uses the signer's key as update/recovery key, derives next commitments from the next keys with the configured algorithm and passes the signer through; (O1) createUpdatePatches never emits a remove-* patch after an add-* patch. (E1) the request-document builders (PopulateRaw*, Doc.JSONBytes) do not write through their inputs. (K3) member names of all request and signed-data models are the wire format's; the did suffix is the text after the last ':'; the raw key carries exactly one key representation on every accepting path; builder options are found by type. An unnamed anchor origin stays absent; every accepting exit of Doc.JSONBytes depends on every field of Doc; each service member is copied under conditions on itself only. All of C16 runs inside this check; With… options store their argument unconditionally; update-patch builders hand values on as they are."}
+	props["C08"] = &propDef{run: runC08, explanation: "Partial: end-to-end acceptance of client-built requests and 'yields the requested document' are behavioural and NOT decided. Decided statically (necessary conditions): (X1) each builder signs / serialises values of exactly the named types the parser decodes into, so member names agree by construction; (X2) the client's signer-header whitelist equals the parser's ({alg,kid}); (P1) in every builder the delta hash is CalculateModelMultihash of the very delta object placed in the request, with the caller's multihash code, and that value is what is signed / put in the suffix data; all four builders return the canonical encoding of the request object; (G1) builders refuse unacceptable inputs — create: document xor patches, valid multihash code, both commitments computed with that code, distinct commitments; update/recover: key present and valid, key-reuse check against the next commitment, signer checks; deactivate: signer checks; (P2) GetAnchoredOperation rebuilds the per-type request from the parsed model field by field and returns its canonical encoding with type, suffix and anchor origin; (P3) the Sidetree client derives the reveal value from the signer's public key with the code of the operation commitment, uses the signer's key as update/recovery key, derives next commitments from the next keys with the configured algorithm and passes the signer through; (O1) createUpdatePatches never emits a remove-* patch after an add-* patch. (E1) the request-document builders (PopulateRaw*, Doc.JSONBytes) do not write through their inputs. (K3) member names of all request and signed-data models are the wire format's; the did suffix is the text after the last ':'; the raw key carries exactly one key representation on every accepting path; builder options are found by type. An unnamed anchor origin stays absent; every accepting exit of Doc.JSONBytes depends on every field of Doc; each service member is copied under conditions on itself only. All of C16 runs inside this check; With… options store their argument unconditionally; update-patch builders hand values on as they are. Fresh request body per HTTP attempt; a named anchor origin reaches the request info."}
 }
 
 func (c *Ctx) unmarshalTargetType(f *ssa.Function) types.Type {
@@ -760,6 +760,19 @@ func runC08(c *Ctx) {
 				continue
 			}
 			for _, a := range allocsOf(f, it) {
+				// … and one the caller did name reaches it: the field receives the options' own AnchorOrigin
+				named := 0
+				for _, fs := range storesInto(a) {
+					if fs.Field != "AnchorOrigin" {
+						continue
+					}
+					for v := range backSlice(fs.Val) {
+						if fa, isFA := v.(*ssa.FieldAddr); isFA && fieldName(fa.X.Type(), fa.Field) == "AnchorOrigin" && strings.HasSuffix(typeShort(derefT(fa.X.Type())), ".Opts") {
+							named++
+						}
+					}
+				}
+				c.Check("C08.P3", strings.TrimSuffix(strings.ToLower(infoT[:1])+infoT[1:], "RequestInfo")+":anchor-origin-named-reaches-the-request", named >= 1, a.Pos(), fmt.Sprintf("%s.AnchorOrigin is filled from the options' AnchorOrigin (%d store(s) that read it)", infoT, named))
 				for _, fs := range storesInto(a) {
 					if fs.Field != "AnchorOrigin" {
 						continue
@@ -779,6 +792,44 @@ func runC08(c *Ctx) {
 				}
 			}
 		}
+	}
+	// every attempt sends the request: the body of each HTTP request the client builds is a reader made there, over the
+	// request bytes — a reader handed in from outside has been read by the attempt before (the retry posts nothing)
+	{
+		n := 0
+		var bad []string
+		for _, f := range c.Funcs {
+			if pkgPathOf(f) != modPkg+pST {
+				continue
+			}
+			forEachInstr(f, func(in ssa.Instruction) {
+				cl, ok := in.(*ssa.Call)
+				if !ok || cl.Call.StaticCallee() == nil {
+					return
+				}
+				nm := cl.Call.StaticCallee().String()
+				if nm != "net/http.NewRequestWithContext" && nm != "net/http.NewRequest" {
+					return
+				}
+				n++
+				body := cl.Call.Args[len(cl.Call.Args)-1]
+				fresh := false
+				for v := range backSlice(body) {
+					if mk, isC := v.(*ssa.Call); isC && mk.Call.StaticCallee() != nil && mk.Parent() == f {
+						switch mk.Call.StaticCallee().String() {
+						case "bytes.NewReader", "bytes.NewBuffer", "strings.NewReader", "bytes.NewBufferString":
+							if _, isP := rootOf(stripConv(mk.Call.Args[0])).(*ssa.Parameter); isP {
+								fresh = true
+							}
+						}
+					}
+				}
+				if !fresh {
+					bad = append(bad, fmt.Sprintf("%s: the request body %s is not a reader made in %s over the request bytes", c.pos(cl.Pos()), c.Path(body, nil), short(f.String())))
+				}
+			})
+		}
+		c.Check("C08.P3", "send:fresh-body-per-attempt", n >= 1 && len(bad) == 0, 0, fmt.Sprintf("%d HTTP request(s) built by the client; each reads the request bytes through a reader of its own", n), bad...)
 	}
 	c.docBytesRule("C08.P3")
 	c.rawServiceRule("C08.P3")
@@ -873,7 +924,7 @@ func runC08(c *Ctx) {
 		}
 		c.Check("C08.P3", "options:store-what-they-are-given", n >= 20 && len(bad) == 0, 0, fmt.Sprintf("%d With… options of the request builders; each stores its argument without consulting the options' current content", n), bad...)
 	}
-	c.Min("C08.P3", 9+3+2+3+7+2+1)
+	c.Min("C08.P3", 9+3+2+3+7+2+1+2+1)
 
 	// ---- O1 remove-before-add
 	cup := c.Fn(pST, "createUpdatePatches")
@@ -1048,20 +1099,58 @@ func (c *Ctx) patchKindOf(g *ssa.Function, d int) string {
 func (c *Ctx) builderTableOrder(f *ssa.Function) ([]string, bool) {
 	var kinds []string
 	found := false
+	// the table: an array literal of f sliced in f, or a package-level slice written once, by the package initialiser,
+	// with such a literal; walkers are the values through which f indexes it
+	type cand struct {
+		al      *ssa.Alloc
+		walkers []ssa.Value
+	}
+	var cands []cand
 	forEachInstr(f, func(in ssa.Instruction) {
-		sl, ok := in.(*ssa.Slice)
-		if !ok || found {
-			return
+		switch x := in.(type) {
+		case *ssa.Slice:
+			if al, ok := x.X.(*ssa.Alloc); ok {
+				cands = append(cands, cand{al, []ssa.Value{x}})
+			}
+		case *ssa.UnOp:
+			g, ok := x.X.(*ssa.Global)
+			if !ok || x.Op != token.MUL || g.Pkg == nil {
+				return
+			}
+			var val ssa.Value
+			n := 0
+			init := g.Pkg.Func("init")
+			for _, fn := range allFuncs(g.Pkg) {
+				forEachInstr(fn, func(i2 ssa.Instruction) {
+					if st, isS := i2.(*ssa.Store); isS && st.Addr == ssa.Value(g) {
+						n++
+						if fn == init {
+							val = st.Val
+						}
+					}
+				})
+			}
+			if n != 1 || val == nil {
+				return
+			}
+			if sl, isSl := val.(*ssa.Slice); isSl {
+				if al, isAl := sl.X.(*ssa.Alloc); isAl {
+					cands = append(cands, cand{al, []ssa.Value{x}})
+				}
+			}
 		}
-		al, ok := sl.X.(*ssa.Alloc)
-		if !ok {
-			return
+	})
+	for _, cd := range cands {
+		if found {
+			break
 		}
+		al := cd.al
 		arr, ok := al.Type().Underlying().(*types.Pointer).Elem().Underlying().(*types.Array)
 		if !ok || arr.Len() == 0 {
-			return
+			continue
 		}
-		fns := make([]*ssa.Function, arr.Len())
+		// per field of the element: the function stored at each index
+		fnsBy := map[int][]*ssa.Function{}
 		for _, r := range *al.Referrers() {
 			ia, isIA := r.(*ssa.IndexAddr)
 			if !isIA {
@@ -1077,53 +1166,56 @@ func (c *Ctx) builderTableOrder(f *ssa.Function) ([]string, bool) {
 					for _, r3 := range *fa.Referrers() {
 						if st, isS := r3.(*ssa.Store); isS && st.Addr == ssa.Value(fa) {
 							if fn := funcValueOf(st.Val); fn != nil && k >= 0 && k < arr.Len() {
-								fns[k] = fn
+								if fnsBy[fa.Field] == nil {
+									fnsBy[fa.Field] = make([]*ssa.Function, arr.Len())
+								}
+								fnsBy[fa.Field][k] = fn
 							}
 						}
 					}
 				}
-			}
-		}
-		for _, fn := range fns {
-			if fn == nil {
-				return
 			}
 		}
 		// walked in ascending order, each element's function called and its result appended in the loop
-		okWalk := false
-		for _, r := range *sl.Referrers() {
-			ia, isIA := r.(*ssa.IndexAddr)
-			if !isIA || !ascendingFromZero(ia) {
+		field := -1
+		for _, w := range cd.walkers {
+			if w.Referrers() == nil {
 				continue
 			}
-			for _, l := range naturalLoops(f) {
-				if !l.blocks[ia.Block()] {
+			for _, r := range *w.Referrers() {
+				ia, isIA := r.(*ssa.IndexAddr)
+				if !isIA || !ascendingFromZero(ia) {
 					continue
 				}
-				for b := range l.blocks {
-					for _, i2 := range b.Instrs {
-						ap, isC := i2.(*ssa.Call)
-						if !isC {
-							continue
-						}
-						if bi, isB := ap.Call.Value.(*ssa.Builtin); !isB || bi.Name() != "append" {
-							continue
-						}
-						cands := map[ssa.Value]bool{}
-						for v := range backSlice(ap.Call.Args[1]) {
-							cands[v] = true
-						}
-						if els, okE := c.varargValues(ap.Call.Args[1]); okE {
-							for _, e := range els {
-								for v := range backSlice(e) {
-									cands[v] = true
+				for _, l := range naturalLoops(f) {
+					if !l.blocks[ia.Block()] {
+						continue
+					}
+					for b := range l.blocks {
+						for _, i2 := range b.Instrs {
+							ap, isC := i2.(*ssa.Call)
+							if !isC {
+								continue
+							}
+							if bi, isB := ap.Call.Value.(*ssa.Builtin); !isB || bi.Name() != "append" {
+								continue
+							}
+							vs := map[ssa.Value]bool{}
+							for v := range backSlice(ap.Call.Args[1]) {
+								vs[v] = true
+							}
+							if els, okE := c.varargValues(ap.Call.Args[1]); okE {
+								for _, e := range els {
+									for v := range backSlice(e) {
+										vs[v] = true
+									}
 								}
 							}
-						}
-						for v := range cands {
-							if dc, isDC := v.(*ssa.Call); isDC && dc.Call.StaticCallee() == nil && !dc.Call.IsInvoke() {
-								if _, isBuiltin := dc.Call.Value.(*ssa.Builtin); !isBuiltin && loadedFromElement(dc.Call.Value, ia) {
-									okWalk = true
+							for v := range vs {
+								if dc, isDC := v.(*ssa.Call); isDC && dc.Call.StaticCallee() == nil && !dc.Call.IsInvoke() {
+									if _, isBuiltin := dc.Call.Value.(*ssa.Builtin); !isBuiltin && loadedFromElement(dc.Call.Value, ia) {
+										field = elementField(dc.Call.Value)
+									}
 								}
 							}
 						}
@@ -1131,15 +1223,42 @@ func (c *Ctx) builderTableOrder(f *ssa.Function) ([]string, bool) {
 				}
 			}
 		}
-		if !okWalk {
-			return
+		fns := fnsBy[field]
+		if field < 0 || fns == nil {
+			continue
+		}
+		complete := true
+		for _, fn := range fns {
+			if fn == nil {
+				complete = false
+			}
+		}
+		if !complete {
+			continue
 		}
 		found = true
 		for _, fn := range fns {
 			kinds = append(kinds, c.patchKindOf(fn, 0))
 		}
-	})
+	}
 	return kinds, found
+}
+
+// elementField: the field of the table element that v is read from (-1 when it cannot be told).
+func elementField(v ssa.Value) int {
+	for d := 0; d < 8; d++ {
+		switch x := v.(type) {
+		case *ssa.UnOp:
+			v = x.X
+		case *ssa.FieldAddr:
+			return x.Field
+		case *ssa.Field:
+			return x.Field
+		default:
+			return -1
+		}
+	}
+	return -1
 }
 
 // loadedFromElement: v is read from (a field of) the slice element addressed by ia, possibly through the range
@@ -1199,7 +1318,7 @@ func (c *Ctx) rawServiceRule(rule string) {
 	}
 	c.Analysed(f)
 	fieldRe := regexp.MustCompile(`(?:\[ι\]|\$\d+)\.([A-Z][A-Za-z]+)`)
-	loopControl := regexp.MustCompile(`^\((len\(.*\) <= ι|ι < len\(.*\))\)=true$`)
+	loopControl := regexp.MustCompile(`^\((len\(.*\) <= ι|ι < len\(.*\)|\d+ <= ι|ι < \d+)\)=true$`)
 	n := 0
 	hosts := append([]*ssa.Function{f}, c.helpersOf(f, 1)...)
 	for _, h := range hosts {
